@@ -122,8 +122,8 @@ namespace rkcommon {
       if (*s == '"') {
         consume(s, '"');
         char *begin = s;
-        while (*s != '"') {
-          if (*s == '\\')
+        while (*s != '"' && *s != 0) {
+          if (*s == '\\' && s[1] != 0)
             ++s;
           ++s;
         }
@@ -133,8 +133,8 @@ namespace rkcommon {
       } else {
         consume(s, '\'');
         char *begin = s;
-        while (*s != '\'') {
-          if (*s == '\\')
+        while (*s != '\'' && *s != 0) {
+          if (*s == '\\' && s[1] != 0)
             ++s;
           ++s;
         }
